@@ -127,7 +127,55 @@ class Part(object):
         self.notes.extend(o.notes)
 
 
-def _run_shard(mod, fname, shard, P):
+_DEVNULL_HANDLER = []
+
+
+def _set_ambient(profile):
+    """Ambient configuration of the process a shard runs in (worker processes are reused, so it is set
+    explicitly every time).  'debug-logging': root logger at DEBUG with a handler writing to os.devnull --
+    what `logging.basicConfig(level=logging.DEBUG)` does in an application, minus the output."""
+    import logging
+    root = logging.getLogger()
+    if not _DEVNULL_HANDLER:
+        _DEVNULL_HANDLER.append(logging.StreamHandler(open(os.devnull, "w")))
+    h = _DEVNULL_HANDLER[0]
+    if profile == "debug-logging":
+        if h not in root.handlers:
+            root.addHandler(h)
+        root.setLevel(logging.DEBUG)
+    else:
+        if h in root.handlers:
+            root.removeHandler(h)
+        root.setLevel(logging.WARNING)
+
+
+def _run_shard(mod, fname, shard, P, ambient="default"):
+    _set_ambient(ambient)
+    if ambient != "default":
+        P.stratum("shards-run-with:" + ambient)
+        P.ambient = ambient
+    try:
+        if ambient == "fresh-thread":
+            import threading
+            err = []
+
+            def body():
+                try:
+                    _run_shard_body(mod, fname, shard, P)
+                except BaseException as e:  # noqa -- re-raised in the calling thread below
+                    err.append(e)
+            t = threading.Thread(target=body)
+            t.start()
+            t.join()
+            if err:
+                raise err[0]
+        else:
+            _run_shard_body(mod, fname, shard, P)
+    finally:
+        _set_ambient("default")
+
+
+def _run_shard_body(mod, fname, shard, P):
     getattr(mod, fname)(P, *shard)
     P._revisiting = True
     for case in list(getattr(P, "_remembered", [])):
@@ -136,19 +184,20 @@ def _run_shard(mod, fname, shard, P):
 
 
 def _shard_entry(args):
-    modname, fname, shard, mutant = args
+    modname, fname, shard, mutant = args[:4]
+    ambient = args[4] if len(args) > 4 else "default"
     mod = importlib.import_module(modname)
     # (an in-memory mutant applied in the parent is inherited through fork)
     P = Part()
     # identity of the shard, kept in every witness: a violation that needs the shard's HISTORY (what was
     # constructed before) is replayed by re-running the shard when its single case does not reproduce alone
     try:
-        sid = json.dumps({"fname": fname, "args": list(shard)})
+        sid = json.dumps({"fname": fname, "args": list(shard), "ambient": ambient})
         P.shard_id = json.loads(sid) if len(sid) < 1500 else None
     except Exception:
         P.shard_id = None
     try:
-        _run_shard(mod, fname, shard, P)
+        _run_shard(mod, fname, shard, P, ambient)
     except Inconclusive as e:
         P.notes.append("INCONCLUSIVE:" + str(e))
     except Exception:
@@ -203,7 +252,11 @@ class Run(object):
         if not shards:
             return
         workers = min(workers or MAXW, len(shards))
-        args = [(module or self.mod.__name__, fname, tuple(s), self.mutant) for s in shards]
+        # every third shard runs the way an application with DEBUG logging enabled would run the library
+        # ... and every third one in a freshly started thread (not the thread that imported the package; own default
+        # decimal context, own thread-local storage)
+        args = [(module or self.mod.__name__, fname, tuple(s), self.mutant, ("default", "debug-logging", "fresh-thread")[i % 3])
+                for i, s in enumerate(shards)]
         if workers <= 1 and not fork:
             for a in args:
                 self.P.merge(_shard_entry(a))
@@ -387,16 +440,20 @@ def run_replay(pid, path):
     R = Run(pid, "replay", int(w.get("seed", 0)))
     R.mod = mod
     print("replaying %s: monitor=%s key=%s" % (path, w.get("monitor"), w.get("key")))
-    if hasattr(mod, "replay"):
-        mod.replay(R, w)
-    else:
-        mod.check_case(R.P, w["case"])
+    _set_ambient((w.get("shard") or {}).get("ambient", "default"))
+    try:
+        if hasattr(mod, "replay"):
+            mod.replay(R, w)
+        else:
+            mod.check_case(R.P, w["case"])
+    finally:
+        _set_ambient("default")
     if not R.P.viol and w.get("shard"):
         # the case alone does not reproduce: the violation may need what the shard did before it
         print("the case alone does not reproduce; re-running its shard %s%r" % (w["shard"]["fname"], tuple(w["shard"]["args"])[:4]))
         P2 = Part()
         try:
-            _run_shard(mod, w["shard"]["fname"], w["shard"]["args"], P2)
+            _run_shard(mod, w["shard"]["fname"], w["shard"]["args"], P2, w["shard"].get("ambient", "default"))
         except Exception:
             R.inconclusive.append("shard re-run failed: " + traceback.format_exc()[-400:])
         P2.viol = [v for v in P2.viol if v.get("key") == w.get("key")]
